@@ -11,6 +11,7 @@ def run(rep, tier):
     rep.rule("R-TOL-INDEX", "component i is scaled by tolerance component i")
     rep.rule("R-PARITY", "time reflection: the step taken, every stage offset and the next step are odd (a magnitude-valued step variable even)")
     rep.rule("R-GRADE", "duplication / power-of-two scaling: the accept operand has degree 0 in the number of copies and in the state scale")
+    rep.rule("R-GRADE-BRANCH", "every comparison steering the step loop relates operands of equal degree in the state scale, or tests against zero")
     rep.rule("R-GRADE-COPIES", "the automatic initial step (hinit) has degree 0 in the number of copies")
     tol.r_tol_once(rep, f)
     tol.r_tol_index(rep, f)
@@ -18,6 +19,7 @@ def run(rep, tier):
     tol.r_parity_hinit(rep, f)
     tol.r_grade_solvers(rep, f)
     tol.r_grade_norm_helpers(rep, f)
+    tol.r_grade_branches(rep, f)
     tol.r_grade_hinit(rep, f)
     rep.explanation = ("Decides the structural part of the symmetries: parity of every time-like quantity under reflection, homogeneity of every step-size decision input under scaling and duplication, "
                        "and alias-freedom of scalar tolerances. NOT decided: bit-identity itself (needs rounding/associativity reasoning per operation) and mirroring accuracy of event times.")
